@@ -229,6 +229,10 @@ pub fn ord_ch(o: Order) -> char {
 
 pub const ORDERS: [Order; 2] = [Order::RowMajor, Order::ColMajor];
 
+/// shapes beyond the size thresholds at which an implementation might switch algorithms (1024,
+/// 4096 elements): non-square, not multiples of the thresholds, long single vectors
+pub const LARGE: [(usize, usize); 6] = [(64, 65), (63, 65), (3, 1400), (1, 4099), (4099, 1), (33, 32)];
+
 /// Build, through the public API only, the matrix of the given order and logical shape whose
 /// memory-order sequence is `f(0), f(1), …`.
 pub fn mk<T>(order: Order, nrows: usize, ncols: usize, f: impl FnMut(usize) -> T) -> Matrix<T> {
